@@ -1,4 +1,4 @@
-import GuppyVerif.Model.Wiring
+import GuppyVerif.Model.DFWiring
 /-! Specification vocabulary for C01 (wiring discipline of `DFContainer`), independent of the
     model's `getitem` / `setitem` code:
 
@@ -6,7 +6,7 @@ import GuppyVerif.Model.Wiring
       abstract values (trees of opaque atoms);
     * wire accounting: which wires the ops consume / produce;
     * addressing of the sub-places of a place by selector paths. -/
-namespace GuppyVerif.Wiring
+namespace GuppyVerif.DFWiring
 
 /-- abstract runtime values: opaque atoms and tuples -/
 inductive Val where
@@ -175,4 +175,4 @@ def okAnd {ε α : Type} (r : Except ε α) (f : α → Bool) : Bool :=
   | .ok a => f a
   | .error _ => false
 
-end GuppyVerif.Wiring
+end GuppyVerif.DFWiring
